@@ -28,15 +28,15 @@ GAPS = ("todo", "unimplemented")
 DIVERGE = ("todo", "unimplemented", "panic", "unreachable")
 
 # number of sites confirmed by reading the tree (2026-09): floors
-FLOOR_TOTAL = 139
-FLOOR_CRATE = {"core": 8, "rust": 3, "c": 21, "cpp": 47, "csharp": 11, "go": 9, "moonbit": 8, "d": 29, "markdown": 3}
+FLOOR_TOTAL = 136
+FLOOR_CRATE = {"core": 8, "rust": 3, "c": 21, "cpp": 47, "csharp": 11, "go": 9, "moonbit": 8, "d": 29, "markdown": 0}
 
 # ------------------------------------------------------------------------------------------------ features
 # A *feature* is what a should_fail_verify exclusion can declare.  `probe` is the (test name, async flag,
 # error-context flag) that the test harness would pass for the codegen test exercising the feature; a backend
 # declares the feature unsupported iff should_fail_verify evaluates to true on the probe.  `token` must occur in
 # the probe's WIT file (corpus sanity).  `fll` (a fixed-length list in any position, e.g. anonymous in a
-# parameter) has no codegen test, hence no probe: no backend declares it today.
+# parameter) has no codegen test of its own: it is declared through `fll-named` (see IMPLIED_BY).
 FEATURES = {
     "async": dict(probe=("futures.wit", True, False), token=r"future<",
                   what="component-model async proposal (future/stream types, async functions)"),
@@ -48,10 +48,20 @@ FEATURES = {
     "async-import-indirect-params": dict(probe=("async-resource-func.wit", True, False), token=r"async func",
                                          what="an async import whose flattened parameters exceed 4 (passed indirectly)"),
     "fll": dict(probe=None, token=None,
-                what="a fixed-length list in any position, incl. anonymous `list<T, N>` (no codegen test exists)"),
+                what="a fixed-length list in any position, incl. anonymous `list<T, N>` (no codegen test of its own)"),
+    # conjunctive: a fixed-length list in bindings generated with --async.  The probe is the `async` *variant* of the
+    # only fixed-length-list test ("Named fixed-length lists don't work with async yet.")
+    "fll+async": dict(probe=("named-fixed-length-list.wit-async", True, False), file="named-fixed-length-list.wit",
+                      variant="async", token=r"list<[^>]*,\s*\d+>",
+                      what="a fixed-length list in async bindings (async import parameter lowering)"),
 }
-# feature implied by the declaration of another (a backend that declares `async` unsupported declares these too)
-IMPLIED_BY = {"async-import-indirect-params": ["async"], "error-context": []}
+# feature implied by the declaration of another (a backend that declares the right-hand side unsupported declares the
+# left-hand side too).
+#  * fll <= fll-named: tests/codegen/named-fixed-length-list.wit is the ONLY codegen test that contains a fixed-length
+#    list, so a backend excluding it declares fixed-length lists unsupported as a whole, named or anonymous
+#    (coordinator's reading of the repository's declarations; checked on every run: no other codegen test has one).
+#  * fll+async <= fll, async: the conjunction is covered by either conjunct.
+IMPLIED_BY = {"async-import-indirect-params": ["async"], "error-context": [], "fll": [], "fll+async": ["fll", "async"]}
 
 
 def feature_of_variant(name):
@@ -91,8 +101,6 @@ SITE_FEATURES = {
     ("d", "DInterfaceGenerator::type_stream", "body"): ["async"],
     # `if *async_ { todo!("CallInterface async") }`
     ("d", "FunctionBindgen::emit", "abi::Instruction::CallInterface"): ["async"],
-    ("markdown", "InterfaceGenerator::type_future", "body"): ["async"],
-    ("markdown", "InterfaceGenerator::type_stream", "body"): ["async"],
 }
 
 # sites triggered by something that is neither declared nor unreachable, which the arm heads cannot express
@@ -549,6 +557,7 @@ class Exclusions:
     def __init__(self, rep):
         self.fn = {}
         self.variants = {}
+        self.variant_args = {}
         for lang in TEST_LANGS:
             rel = f"crates/test/src/{lang}.rs"
             self.fn[lang] = synq.find_fn(rel, "should_fail_verify")
@@ -560,6 +569,7 @@ class Exclusions:
                 for t in synq.walk(f.body):
                     if t.get("k") == "tuple" and t["elems"] and t["elems"][0].get("k") == "str":
                         vs.append(t["elems"][0]["v"])
+                        self.variant_args[(lang, t["elems"][0]["v"])] = [x["v"] for x in synq.strings(t)][1:]
             self.variants[lang] = vs
         self.cache = {}
 
@@ -575,7 +585,14 @@ class Exclusions:
         if lang not in self.fn:
             return False, f"crates/test/src/{lang}.rs does not exist: no exclusions"
         spec = FEATURES[feat]
-        if spec["probe"] is not None:
+        if spec["probe"] is not None and spec.get("variant"):
+            # a variant probe only makes sense for a language that runs that variant with an --async argument
+            v = spec["variant"]
+            if any(x.startswith("--async") for x in self.variant_args.get((lang, v), [])):
+                nm, a, e = spec["probe"]
+                if eval_sfv(self.fn[lang], nm, a, e):
+                    return True, f"should_fail_verify({nm!r}, async={a}, error-context={e}) = true (variant `{v}`)"
+        elif spec["probe"] is not None:
             nm, a, e = spec["probe"]
             if eval_sfv(self.fn[lang], nm, a, e):
                 return True, f"should_fail_verify({nm!r}, async={a}, error-context={e}) = true"
@@ -584,8 +601,10 @@ class Exclusions:
             if ok:
                 return True, f"implied by `{imp}`: {how}"
         if spec["probe"] is None:
-            return False, "no codegen test exercises this feature, so no exclusion can declare it"
+            return False, "neither this feature nor one that implies it is excluded"
         nm, a, e = spec["probe"]
+        if spec.get("variant"):
+            return False, f"should_fail_verify({nm!r}, async={a}, error-context={e}) is not true"
         part = [v for v in self.variants.get(lang, []) if eval_sfv(self.fn[lang], f"{nm}-{v}", a, e)]
         if part:
             return False, (f"should_fail_verify is true only for the variant(s) {[nm + '-' + v for v in part]}, "
@@ -605,13 +624,29 @@ def corpus_checks(rep):
         if spec["probe"] is None:
             continue
         nm, a, e = spec["probe"]
-        p = os.path.join(base, nm)
+        fname = spec.get("file", nm)
+        p = os.path.join(base, fname)
         if not os.path.exists(p):
-            rep.ob("R16.2", f"probe file of `{feat}` exists: tests/codegen/{nm}", False, "missing", p)
+            rep.ob("R16.2", f"probe file of `{feat}` exists: tests/codegen/{fname}", False, "missing", p)
             continue
         t = open(p).read()
-        rep.ob("R16.2", f"probe of `{feat}`: tests/codegen/{nm} has async={a}, error-context={e} and uses the feature",
-               flags(t) == (a, e) and re.search(spec["token"], t) is not None, f"flags {flags(t)}", f"tests/codegen/{nm}")
+        if spec.get("variant"):
+            # the async-ness of a variant probe comes from the variant's --async argument, not from the file header
+            rep.ob("R16.2", f"probe of `{feat}`: tests/codegen/{fname} (variant `{spec['variant']}`) uses the feature",
+                   re.search(spec["token"], t) is not None, f"flags {flags(t)}", f"tests/codegen/{fname}")
+        else:
+            rep.ob("R16.2", f"probe of `{feat}`: tests/codegen/{nm} has async={a}, error-context={e} and uses the feature",
+                   flags(t) == (a, e) and re.search(spec["token"], t) is not None, f"flags {flags(t)}", f"tests/codegen/{nm}")
+    # fll <= fll-named: named-fixed-length-list.wit is the only codegen test with a fixed-length list
+    others = []
+    for root, _, files in os.walk(base):
+        for f in files:
+            if f.endswith(".wit") and re.search(r"list<[^<>]*(<[^<>]*>)?[^<>]*,\s*\d+\s*>", open(os.path.join(root, f)).read()):
+                others.append(os.path.relpath(os.path.join(root, f), base))
+    only = others == ["named-fixed-length-list.wit"]
+    rep.ob("R16.2", "named-fixed-length-list.wit is the only codegen test containing a fixed-length list (so excluding it "
+                    "declares fixed-length lists unsupported as a whole)", only, f"{others}", "tests/codegen")
+    IMPLIED_BY["fll"] = ["fll-named"] if only else []
     # `async` declared => `error-context` declared: every error-context test is an async test
     bad = []
     n = 0
@@ -822,6 +857,78 @@ class PairEval:
                         out |= self.ev(args[j], g, {}, self.conds(g, c), None, depth + 1)
             return out if n else {"?"}
         return {"?"}
+
+    def callers(self, fn):
+        """[(caller fn, call node)] of `fn` inside the crate, matched by method / function name"""
+        out = []
+        for g in self.fns:
+            for c in synq.walk(g.body):
+                if (c.get("k") == "mcall" and c["method"] == fn.name) or \
+                        (c.get("k") == "call" and c["func"].get("k") == "path" and synq.short(c["func"]["path"]) == fn.name):
+                    out.append((g, c))
+        uniq = {}
+        for g, c in out:  # innermost fn wins (all_fns lists nested fns and their parents)
+            cur = uniq.get(id(c))
+            if cur is None or synq.line(g.node) >= synq.line(cur[0].node):
+                uniq[id(c)] = (g, c)
+        return list(uniq.values())
+
+    def effective_sites(self, fn, call, arg, depth=0):
+        """Call sites that really decide the value of argument expression `arg` of `call` (inside fn): when `arg` is a
+        parameter of fn, the crate's callers of fn (recursively).  -> [(fn, call node, rendered argument)]"""
+        if arg.get("k") == "path" and "::" not in arg["path"] and arg["path"] in fn.params and depth < 6 and \
+                not any(nm == arg["path"] for nm, _, _ in synq.bindings(fn.body)):
+            i = fn.params.index(arg["path"])
+            has_self = fn.params[0] == "self"
+            out = []
+            cs = self.callers(fn)
+            for g, c in cs:
+                j = i - (1 if has_self and c.get("k") == "mcall" else 0)
+                if 0 <= j < len(c["args"]):
+                    out += self.effective_sites(g, c, c["args"][j], depth + 1)
+                else:
+                    out.append((g, c, "?"))
+            return out if cs else [(fn, call, render(arg))]
+        return [(fn, call, render(arg))]
+
+    def is_async_cond(self, fn, cond):
+        """an `if` condition that asks whether the function is generated async: a call of a method named `is_async`,
+        or a local bound to such a call"""
+        while cond.get("k") == "unary" and cond["op"] == "!":
+            return False  # a negated test guards the sync branch
+        if cond.get("k") == "mcall" and cond["method"] == "is_async":
+            return True
+        if cond.get("k") == "path" and "::" not in cond["path"]:
+            d = synq.reaching_def(fn.body, cond["path"], synq.line(cond))
+            if d and d[0] is not None and d[0].get("k") == "mcall" and d[0]["method"] == "is_async":
+                return True
+        return False
+
+    def async_only(self, fn, node, depth=0, seen=None):
+        """Is `node` (inside fn) reached only when bindings for an async function are generated?  True iff it sits in
+        the then-branch of an `if <is_async>`, or every caller of fn in the crate (there must be one) is async-only.
+        -> (bool, why)"""
+        seen = seen or set()
+        par = self.parent_map(fn)
+        cur = node
+        while id(cur) in par and par[id(cur)][0] is not None:
+            p_, fld = par[id(cur)]
+            if p_.get("k") == "if" and fld == "then" and self.is_async_cond(fn, p_["cond"]):
+                return True, f"inside `if {render(p_['cond'])}` in {fn.self_ty or ''}::{fn.name}"
+            cur = p_
+        key = (fn.file, fn.self_ty, fn.name)
+        if depth >= 6 or key in seen:
+            return False, f"{fn.self_ty or ''}::{fn.name}: caller chain too deep"
+        cs = self.callers(fn)
+        if not cs:
+            return False, f"{fn.self_ty or ''}::{fn.name} ({fn.file}) has no caller in the crate under an `if is_async` test"
+        whys = []
+        for g, c in cs:
+            ok, why = self.async_only(g, c, depth + 1, seen | {key})
+            if not ok:
+                return False, why
+            whys.append(why)
+        return True, "; ".join(dict.fromkeys(whys))
 
     def entry_calls(self, entries):
         """[(entry name, call node, fn)] for abi::<entry>(..) calls in the crate"""
@@ -1073,9 +1180,13 @@ def run(rep, tier):
                       "wit-parser / wasmparser sources in the cargo registry (enum variant lists, text anchors)",
                       "feature vocabulary and probe tests transcribed in rules/C16.py (FEATURES)",
                       "allow-list reasons marked 'verified by reading only'"],
-        assumptions=["an exclusion of named-fixed-length-list.wit declares only the *named* form (`type t = list<T, N>`, "
-                     "feature fll-named) unsupported; a site that an anonymous `list<T, N>` reaches as well (feature fll) "
-                     "is not covered by it (DESIGN.md C16 R16.2)",
+        assumptions=["reading of the repository's declarations: tests/codegen/named-fixed-length-list.wit is the only "
+                     "codegen test with a fixed-length list (checked on every run), so a backend excluding it declares "
+                     "fixed-length lists unsupported as a whole, named or anonymous (fll <= fll-named); a backend that "
+                     "excludes only its `-async` variant (rust, moonbit) declares `fixed-length list together with "
+                     "--async` (fll+async), which discharges core's Generator::deallocate FixedLengthList todo!() for a "
+                     "backend only if every direct call of abi::deallocate_lists*_in_types there is verified to sit in "
+                     "async-only code (then-branch of an `if <is_async()>` test, transitively over the crate's callers)",
                      "generator options other than those exercised by codegen_test_variants keep their defaults",
                      "a 'valid world' is one wit-parser resolves and wit-component can encode (1..=32 flags)",
                      "an exclusion by config.async_ also declares error-context (part of the async proposal; checked: "
@@ -1235,7 +1346,7 @@ def run(rep, tier):
 
     used_allow = set()
 
-    def judge(s, b, inst, pre=""):
+    def judge(s, b, inst, pre="", refine=None):
         al = ALLOW.get(s.key3)
         if al is not None:
             used_allow.add(s.key3)
@@ -1243,6 +1354,8 @@ def run(rep, tier):
             rep.ob("R16.1", inst, ok, f"allow-listed: {al[0]} [{det}]", s.loc())
             return
         trig = site_triggers(s, b)
+        if refine:
+            trig = [(k, refine.get(w, w) if k == "feature" else w, d) for k, w, d in trig]
         multi = bool(s.chain) and s.key3 not in SITE_FEATURES and s.key3 not in SITE_CORE and \
             (len(s.chain[-1].heads) > 1 or "_" in s.chain[-1].heads)
         groups = {}  # label -> (ok, [details])
@@ -1274,6 +1387,26 @@ def run(rep, tier):
         for label, (ok, ds) in groups.items():
             rep.ob("R16.1", f"{inst} [{label}]", ok, (pre + "; ".join(ds))[:1500], s.loc())
 
+    def dealloc_direct_sites(b):
+        """effective call sites of abi::deallocate_lists_in_types / deallocate_lists_and_own_in_types in backend b whose
+        `indirect` argument is not the literal `true` (only those run Generator::deallocate on the types themselves)"""
+        pe = be[b]["pe"]
+        out = []
+        for nm, c, f in be[b]["calls"]:
+            if nm in ("deallocate_lists_in_types", "deallocate_lists_and_own_in_types"):
+                out += [x for x in pe.effective_sites(f, c, c["args"][3]) if x[2] != "true"]
+        return out
+
+    def dealloc_async_only(b):
+        """(bool, why): every such site is in code generated only for async functions"""
+        whys = []
+        for g, c, a in dealloc_direct_sites(b):
+            ok, why = be[b]["pe"].async_only(g, c)
+            if not ok:
+                return False, f"the call in {g.self_ty or ''}::{g.name} ({g.file}) is not async-only: {why}"
+            whys.append(why)
+        return True, "; ".join(dict.fromkeys(whys))
+
     # core sites are judged once per backend that can reach them
     def core_reach(s, b):
         """(reachable, why) for a site in crates/core evaluated for backend b"""
@@ -1287,11 +1420,11 @@ def run(rep, tier):
                                    f"{b} never calls abi::call with ({'|'.join(av)}, {ll[0]}); it passes {sorted(be[b]['pairs'])}")
             return True, "conditions not understood"
         if s.file == ABI and s.fn == "Generator::deallocate":
-            ent = [c for c in be[b]["calls"] if c[0] in ("deallocate_lists_in_types", "deallocate_lists_and_own_in_types")]
-            direct = [c for c in ent if render(c[1]["args"][3]) != "true"]
+            direct = dealloc_direct_sites(b)
             if direct:
-                return True, (f"{b} calls abi::{direct[0][0]} with indirect = `{render(direct[0][1]['args'][3])}` "
-                              f"({direct[0][2].file}:{synq.line(direct[0][1])}), which runs deallocate() on the parameter types")
+                g, c, a = direct[0]
+                return True, (f"{b} calls abi::deallocate_lists*_in_types with indirect = `{a}` in "
+                              f"{g.self_ty or ''}::{g.name} ({g.file}), which runs deallocate() on the parameter types")
             return False, f"{b} never calls abi::deallocate_lists*_in_types with indirect != true"
         if s.file == ABI and s.fn.startswith("Generator::") and s.fn.split("::")[1] in emit.methods:
             ents = [e for e in sorted(be[b]["entries"]) if s.fn.split("::")[1] in emit.closure(emit.entries[e])]
@@ -1311,6 +1444,12 @@ def run(rep, tier):
                 ok, why = core_reach(s, b)
                 if not ok:
                     rep.ob("R16.1", inst, True, f"not reachable: {why}", s.loc())
+                elif s.file == ABI and s.fn == "Generator::deallocate":
+                    # reached only from the direct (indirect = false) form of deallocate_lists*_in_types: if every such
+                    # call of this backend is in async-only code, the trigger is "fixed-length list AND async"
+                    ao, aw = dealloc_async_only(b)
+                    judge(s, b, inst, pre=f"reachable: {why}; " + (f"all such calls are async-only ({aw}); " if ao else f"{aw}; "),
+                          refine={"fll": "fll+async"} if ao else None)
                 else:
                     judge(s, b, inst, pre=f"reachable: {why}; ")
             rep.guard("R16.1", f"{s.key} @{b}", one, s.loc())
